@@ -612,6 +612,13 @@ impl IQLEngine {
             }
         }
 
+        // Reject recursion through negation for the whole program (persistent + session rules)
+        if let recursion::StratificationResult::NotStratifiable { reason, .. } =
+            recursion::stratify_with_negation(&program)
+        {
+            return Err(format!("Unstratified negation: {reason}"));
+        }
+
         // Recursion detection
         self.has_recursion = recursion::has_recursion(&program);
 
